@@ -106,10 +106,14 @@ def draw_counter(fn):
 
 
 def _smh2(ctx, facts):
+    """registers of SuperMinHash2 are lexicographic minima of (level l[k], value values[k]) with payload hsketch[k]:
+    same level: values and hsketch written together under value <= current (64-bit key: tie exempt), l untouched;
+    strictly lower level: l[k] = counter, values and hsketch written together"""
     fid = SMH2 + "sketch"
     fn = facts.fn(fid)
     t = tree_of(fn)
     sl = slicer_of(fn)
+    R = resolver_of(fn)
     J = draw_counter(fn)
     n = 0
     ws = writes_to_self(fn)
@@ -119,26 +123,25 @@ def _smh2(ctx, facts):
         n += 1
         where = hirq.loc(w)
         k = nf.nf(idx[0], True)
-        conds = nf.all_conditions(t, w)
+        kr = nf.nf(idx[0], True, res=R)
+        L = "self.l[%s]" % kr
+        conds = nf.all_conditions(t, w, res=R)
         blk = t.parent.get(id(w))
         sib = {ff: x for (x, ff, ii) in ws if t.parent.get(id(x)) is blk and ii and nf.nf(ii[0], True) == k}
-        base = _has(conds, J, ("<=",), "self.l[%s]" % k)
-        tie = (_has(conds, J, ("==",), "self.l[%s]" % k) or _has(conds, "self.l[%s]" % k, ("==",), J))
-        lower = _has(conds, J, ("!=",), "self.l[%s]" % k) or _has(conds, "self.l[%s]" % k, ("!=",), J) or _has(conds, J, ("<",), "self.l[%s]" % k)
+        tie = _has(conds, J, ("==",), L) or _has(conds, L, ("==",), J)
+        lower = _has(conds, J, ("<",), L) or ((_has(conds, J, ("!=",), L) or _has(conds, L, ("!=",), J)) and _has(conds, J, ("<=",), L))
         good = False
-        if base and tie and not lower:
-            # same level: needs r <= values[k] (64-bit key: tie exempt) and must not touch l
-            rv = nf.nf(sib["values"]["r"], True) if "values" in sib else None
-            good = rv is not None and (_has(conds, rv, ("<=", "<"), "self.values[%s]" % k)) and "l" not in sib and "hsketch" in sib
-        elif (base and lower) or (lower and nf.has_cmp(conds, J, ("<",), "self.l[%s]" % k)):
-            # strictly lower level: l[k] = j, values and hsketch together
+        if tie and not lower:
+            rv = nf.nf(sib["values"]["r"], True, res=R) if "values" in sib else None
+            good = rv is not None and _has(conds, rv, ("<=", "<"), "self.values[%s]" % kr) and "l" not in sib and "hsketch" in sib
+        elif lower and not tie:
             good = "l" in sib and nf.nf(sib["l"]["r"], True) == J and "values" in sib and "hsketch" in sib
         if good:
-            ctx.ok("GUARD", fid, "%s under %s" % (nf.nf(w)[:40], [c for c in conds[:3]]), where)
+            ctx.ok("GUARD", fid, "%s under %s" % (nf.nf(w)[:40], nf.all_conditions(t, w)[:3]), where)
         else:
             ctx.violation("GUARD", fid, "%s write" % f, where,
                           "`%s` is not a guarded lexicographic improvement of (l[%s], values[%s]) written together with hsketch[%s]; conditions %s"
-                          % (nf.nf(w)[:50], k, k, k, conds[:3]))
+                          % (nf.nf(w)[:50], k, k, k, nf.all_conditions(t, w)[:3]))
         if f == "values":
             check_roots(ctx, "PROV", fid, "value written to values", where, sl.roots(w["r"]), GEN_OK)
         if f == "hsketch":
@@ -291,7 +294,14 @@ def _histo(ctx, facts, fid, kind):
     else:
         # old level is l[k]; l[k] = j must come after the decrement in the same block
         lw = [w for (w, f, i) in ws if f == "l" and t.parent.get(id(w)) is blk]
-        ok = ok and old_shown.startswith("self.l[") and len(lw) == 1 and nf.nf(lw[0]["r"], True) == J and nf.nf(lw[0]["l"], True) == old_shown and hir_dominates(t, dec, lw[0])
+        # the old level is l[k], read (possibly into an immutable local) before `l[k] = counter`
+        d0 = nf.strip_casts(di[0])
+        read_before = True
+        if d0["k"] == "Path" and "local" in d0["res"]:
+            lets = [n for n in user_nodes(fn) if n["k"] == "Let" and n["pat"]["k"] == "Bind" and n["pat"]["id"] == d0["res"]["local"]]
+            read_before = bool(lets) and bool(lw) and hir_dominates(t, lets[0], lw[0])
+        ok = ok and old.startswith("self.l[") and len(lw) == 1 and nf.nf(lw[0]["r"], True) == J and nf.nf(lw[0]["l"], True, res=R) == old and read_before and \
+            (hir_dominates(t, dec, lw[0]) or d0["k"] == "Path")
         msg = "old level must be self.l[k], decremented before `self.l[k] = %s` in the same block" % J
     if ok:
         ctx.ok("HISTO", fid, "b[%s] -= 1; b[%s] += 1 in one guarded block, old level read before the move" % (old_shown, J), hirq.loc(dec))
